@@ -3,9 +3,9 @@
 //
 //	c15 -dir D -seed S -n N -tier quick|thorough     the check's driver
 //	c15 -probe NAME                                   print the trace of a built-in scenario
-//	c15 -explore class|general|hier|hierfam [-n N -seed S] [-v]    statistics over random worlds
+//	c15 -explore class|general|hier|hierfam|sized|sizedfam [-n N -seed S] [-v]    statistics over random worlds
 //
-// -probe NAME: a corpus world, gen:<seed>:<i>, hier:<seed>:<k>, hierfam:<k>, file:<world.json>;
+// -probe NAME: a corpus world, gen:<seed>:<i>, hier:<seed>:<k>, hierfam:<k>, sized:<seed>:<k>, sizedfam:<k>, file:<world.json>;
 // C15_LOG=<level> scheduler logs, C15_REPEAT=<k> lasso count over k runs, C15_DUMP=1 the world as JSON.
 package main
 
@@ -22,6 +22,7 @@ func main() {
 	explore := flag.String("explore", "", "class|general: run -n random worlds of the stream and print statistics")
 	verbose := flag.Bool("v", false, "verbose exploration")
 	hier := flag.Int("hier", -1, "number of RANDOM hierarchical worlds appended to the run (-1: quick tier 0, thorough tier n/5)")
+	sized := flag.Int("sized", -1, "number of RANDOM sized worlds (gpu-memory / multi-device / elastic jobs) appended to the run (-1: quick tier n/10, thorough tier n/5)")
 	u.Main(func(dir string, seed uint64, n int, tier string) error {
 		if *probe != "" {
 			fmt.Print(c15.Probe(*probe))
@@ -31,6 +32,6 @@ func main() {
 			fmt.Print(c15.Explore(*explore, seed, n, *verbose))
 			return nil
 		}
-		return c15.RunAll(dir, seed, n, tier, *hier)
+		return c15.RunAll(dir, seed, n, tier, *hier, *sized)
 	})
 }
